@@ -6,8 +6,9 @@ CONSTANTS
   Protocol = TRUE
   CfgIds = {1, 2, 3, 4}
   MaxDepth = 4
-  Sample = 97
+  Sample = 23
   PriceMoves = {8, 13}
+  GuardShares = TRUE
   Rich = FALSE
 VIEW View
 INVARIANTS MonitorsHold Emitted
